@@ -95,8 +95,8 @@ def c_locale_rebuild(run, es5, pdir, fresh):
     import subprocess
     env = dict(os.environ, LC_ALL='C', LANG='C', PYTHONUTF8='0', PYTHONCOERCECLOCALE='0', PYTHONPATH=scratch.scratch_src())
     env.pop('PYTHONIOENCODING', None)
-    code = 'from calmjs.parse.parsers.optimize import reoptimize_all; reoptimize_all(True)'
-    p = subprocess.run([sys.executable, '-c', code], env=env, stdout=subprocess.PIPE, stderr=subprocess.PIPE, universal_newlines=True)
+    # the entry point itself (what setup.py's build hook and the documentation run), not a call of the function it is expected to make
+    p = subprocess.run([sys.executable, '-m', 'calmjs.parse.parsers.optimize'], env=env, stdout=subprocess.PIPE, stderr=subprocess.PIPE, universal_newlines=True)
     for m in (es5.lextab, es5.yacctab):
         sys.modules.pop(m, None)
     importlib.invalidate_caches()
